@@ -159,6 +159,11 @@ def c05(chk):
                        "by the trace spec but not required to converge on a connection"]
     chk.add_mc(tlc_mc("MC_Conn.tla", "MC_Conn_c05.cfg", workers=4, timeout=300))
     spec_mutant(chk, "tiebreak_inverted", "MC_Conn.tla", "MC_Conn_c05.cfg", [MUT_TIEBREAK], workers=4)
+    # liveness under weak fairness of transport / manager / handler steps: after a mutual dial both sides end
+    # - for ever - on the connection dialed by the greater identity, and the event streams fall silent
+    chk.add_mc(tlc_mc("MC_Conn.tla", "MC_Conn_live_c05.cfg", workers=4, timeout=300))
+    spec_mutant(chk, "live_arrival_order_wins", "MC_Conn.tla", "MC_Conn_live_c05.cfg",
+                [("AnemoConn.tla", "THEN IF TieBreak(n, p, cur[p].origin, o)", "THEN IF TRUE")], workers=4)
     tables = vlib.tlc_tables("TieBreakTable.tla", "TieBreakTable.cfg")
     table_check(chk, "tiebreak", tables["tiebreak"], "table-tiebreak", per_row=400 if quick(chk) else 20000)
     runs = 48 if quick(chk) else 48 * 8
@@ -235,6 +240,10 @@ def c09(chk):
                        "(+ the last send) - see DESIGN.md"]
     chk.add_mc(tlc_mc("MC_Conn.tla", "MC_Conn_quick.cfg" if quick(chk) else "MC_Conn_thorough.cfg",
                       workers=8 if quick(chk) else 14, timeout=300 if quick(chk) else 1800))
+    # liveness under weak fairness (timeouts, disconnects and dials stay up to the environment): views become
+    # mutual for ever, no handler outlives its listing, the event streams fall silent
+    chk.add_mc(tlc_mc("MC_Conn.tla", "MC_Conn_live.cfg", workers=4, timeout=600))
+    spec_mutant(chk, "live_stale_exit_removes_replacement", "MC_Conn.tla", "MC_Conn_live.cfg", [MUT_REMOVE_BY_PEER], workers=4)
     runs = 24 if quick(chk) else 700
     for label, kw in (("ka", dict(keepalive=3000, nodes=3, ops=50)),
                       ("noka", dict(keepalive=0, nodes=3, ops=50)),
